@@ -8,7 +8,8 @@ EXPLANATION = (
     '(while True / unbounded generator) whose continuation is reached from an exception '
     'handler retries only for an explicit allow-list of errors (an errno comparison or a '
     'specific OSError subclass) and the handler has a way out of the loop; "retry on every '
-    'OSError" is a violation; (R17.2) the OSError of every mutating primitive of an attempt '
+    'OSError" is a violation, also when the handler sits in a helper called in the loop '
+    '("any error of the probe means the name is taken"); (R17.2) the OSError of every mutating primitive of an attempt '
     'is caught inside the attempt for that candidate (so the candidate loop proceeds to '
     'the next candidate or reports failure); (R17.3) an exceptional exit of WRITE/CLOSE -- '
     'the .trashinfo exists, possibly empty -- reaches DELETE(INFO) before another name is '
